@@ -3,6 +3,7 @@
 
 #![warn(missing_docs)]
 #![cfg_attr(docsrs, feature(doc_cfg))]
+#![allow(unexpected_cfgs)] // `prio_verif` (verification hooks, off by default)
 
 //! # libprio-rs
 //!
@@ -30,3 +31,5 @@ mod polynomial;
 mod prng;
 pub mod topology;
 pub mod vdaf;
+#[cfg(prio_verif)]
+pub mod verif_hooks;
